@@ -1178,6 +1178,208 @@ func c33OpStyledownTexts(c *vk.Ctx, k *c33Coll, texts []c33Spec) {
 }
 
 // ---------------------------------------------------------------------------
+// op 11: TextBuilder as a stateful object (state/history search). Every builder
+// state reached by a prefix of k alternating-style writes followed by every
+// sequence of <= n operations over {write red, write bold, write in the style of
+// the pending segment, write a two-segment text, Text() snapshot, Reset} is
+// compared with a reference model (a normalised list of (style, text) pairs).
+// After EVERY operation every snapshot taken so far must still have the value
+// it had when it was taken (a returned Text must not change behind the
+// caller's back while the builder keeps being used).
+
+type c33Pair struct {
+	St  ui.Style
+	Txt string
+}
+
+func c33Pairs(t ui.Text) []c33Pair {
+	out := make([]c33Pair, 0, len(t))
+	for _, s := range t {
+		if s == nil {
+			out = append(out, c33Pair{Txt: "<nil segment>"})
+			continue
+		}
+		out = append(out, c33Pair{s.Style, s.Text})
+	}
+	return out
+}
+
+func c33PairsEq(a, b []c33Pair) bool {
+	if len(a) != len(b) {
+		return false
+	}
+	for i := range a {
+		if a[i] != b[i] {
+			return false
+		}
+	}
+	return true
+}
+
+func c33PairsDesc(ps []c33Pair) string {
+	if len(ps) == 0 {
+		return "(empty)"
+	}
+	var p []string
+	for _, x := range ps {
+		p = append(p, fmt.Sprintf("%s:%q", c33StyleDesc(x.St), x.Txt))
+	}
+	return "{" + strings.Join(p, ", ") + "}"
+}
+
+// c33ModelWrite appends a normal-form text to the model, merging equal styles.
+func c33ModelWrite(m []c33Pair, w []c33Pair) []c33Pair {
+	for _, x := range w {
+		if x.Txt == "" {
+			continue
+		}
+		if n := len(m); n > 0 && m[n-1].St == x.St {
+			m[n-1].Txt += x.Txt
+		} else {
+			m = append(m, x)
+		}
+	}
+	return m
+}
+
+var c33TBOps = []string{"A", "B", "S", "M", "T", "R"} // write red, write bold, write same-as-pending, write 2 segments, Text(), Reset
+
+func c33OpBuilder(c *vk.Ctx, k *c33Coll, maxPrefix, maxOps int) {
+	red, bold := ui.Style{Fg: ui.Red}, ui.Style{Bold: true}
+	// all operation sequences of length <= maxOps, length-lexicographic
+	seqs := [][]int{{}}
+	level := [][]int{{}}
+	for n := 0; n < maxOps; n++ {
+		var next [][]int
+		for _, p := range level {
+			for o := range c33TBOps {
+				next = append(next, append(append([]int{}, p...), o))
+			}
+		}
+		seqs = append(seqs, next...)
+		level = next
+	}
+	var states, transitions int64
+	var cmu sync.Mutex
+	c.Parallel((maxPrefix+1)*len(seqs), func(l *vk.Local, i int) {
+		pre, seq := i/len(seqs), seqs[i%len(seqs)]
+		ord := c33Ord(pre+len(seq), i)
+		var tb ui.TextBuilder
+		var model []c33Pair
+		var hist []string
+		type snap struct {
+			at     int
+			text   ui.Text
+			frozen []c33Pair
+		}
+		var snaps []snap
+		in := func() string { return "TextBuilder: " + strings.Join(hist, "; ") }
+		step := 0
+		bad := ""
+		fail := func(key string, msg func() string) {
+			if bad == "" {
+				bad = key
+			}
+			k.report("textbuilder:"+key, ord, msg)
+		}
+		write := func(w []c33Pair) {
+			t := make(ui.Text, len(w))
+			for j, x := range w {
+				t[j] = &ui.Segment{Style: x.St, Text: x.Txt}
+			}
+			hist = append(hist, "WriteText("+c33Desc(t)+")")
+			tb.WriteText(t)
+			model = c33ModelWrite(model, w)
+			if !c33PairsEq(c33Pairs(t), w) {
+				fail("mutates-input", func() string { return fmt.Sprintf("%s: the written text is now %s", in(), c33Desc(t)) })
+			}
+		}
+		after := func() {
+			// every earlier snapshot still has the value it had when it was taken
+			for _, s := range snaps {
+				if now := c33Pairs(s.text); !c33PairsEq(now, s.frozen) {
+					fail("earlier-snapshot-changed", func() string {
+						return fmt.Sprintf("%s: the Text returned by step %d was %s and has silently become %s", in(), s.at, c33PairsDesc(s.frozen), c33PairsDesc(now))
+					})
+				}
+			}
+			if e := tb.Empty(); e != (len(model) == 0) {
+				fail("empty-flag", func() string { return fmt.Sprintf("%s: Empty() = %v but the content is %s", in(), e, c33PairsDesc(model)) })
+			}
+			step++
+		}
+		run := func(op int) {
+			switch c33TBOps[op] {
+			case "A":
+				write([]c33Pair{{red, fmt.Sprintf("a%d ", step)}})
+			case "B":
+				write([]c33Pair{{bold, fmt.Sprintf("b%d ", step)}})
+			case "S":
+				st := ui.Style{}
+				if len(model) > 0 {
+					st = model[len(model)-1].St
+				}
+				write([]c33Pair{{st, fmt.Sprintf("more%d ", step)}})
+			case "M":
+				write([]c33Pair{{red, fmt.Sprintf("p%d ", step)}, {bold, fmt.Sprintf("q%d ", step)}})
+			case "T":
+				hist = append(hist, fmt.Sprintf("step %d: Text()", step))
+				t := tb.Text()
+				if kind := c33Normal(t); kind != "" {
+					fail(kind, func() string { return fmt.Sprintf("%s = %s is not in normal form (%s)", in(), c33Desc(t), kind) })
+				}
+				if got := c33Pairs(t); !c33PairsEq(got, model) {
+					fail("snapshot-differs-from-model", func() string {
+						return fmt.Sprintf("%s = %s, but what was written is %s", in(), c33Desc(t), c33PairsDesc(model))
+					})
+				}
+				snaps = append(snaps, snap{step, t, c33Pairs(t)})
+			case "R":
+				hist = append(hist, "Reset()")
+				tb.Reset()
+				model = nil
+			}
+		}
+		if !k.try("textbuilder", ord, in, func() {
+			for j := 0; j < pre; j++ {
+				run(j % 2) // alternating red / bold writes: j committed segments + 1 pending
+				after()
+			}
+			for _, op := range seq {
+				run(op)
+				after()
+			}
+			// final observation of the state
+			run(4)
+			after()
+		}) {
+			l.Case("textbuilder/panic")
+			return
+		}
+		nsnap, nreset, sameAfterSnap := 0, 0, false
+		for j, op := range seq {
+			switch c33TBOps[op] {
+			case "T":
+				nsnap++
+				if j+1 < len(seq) && c33TBOps[seq[j+1]] == "S" {
+					sameAfterSnap = true
+				}
+			case "R":
+				nreset++
+			}
+		}
+		cmu.Lock()
+		states += int64(len(seq)) + 1
+		transitions += int64(pre+len(seq)) + 1
+		cmu.Unlock()
+		l.Case(fmt.Sprintf("textbuilder/prefix=%d/ops=%d/snaps=%d/resets=%d/same-after-snap=%v/final=%d/%s", pre, len(seq), nsnap, nreset, sameAfterSnap, len(model), bad))
+	})
+	c.Set("textbuilder_states_checked", states)
+	c.Set("textbuilder_transitions", transitions)
+	k.flush(c)
+}
+
+// ---------------------------------------------------------------------------
 
 func TestVerifC33(t *testing.T) {
 	vk.Run(t, "C33", "exploration", func(c *vk.Ctx) {
@@ -1191,9 +1393,10 @@ func TestVerifC33(t *testing.T) {
 			"Enumerated: T(s, stylings) for every string of <=2 characters and every list of <=2 stylings out of %d; Concat over %s; the Concat/RConcat methods of Text and Segment over U_2 x strings/numbers/segments(incl. empty)/U_2; "+
 			"Partition of every text of U_3 at every non-decreasing tuple of <=%d byte indices; SplitByRune of U_3 by 4 runes; TrimWcwidth of U_3 for widths 0..7; StyleText of U_3 with every styling and of U_2 with every pair; Clone and every Index slice of U_3; "+
 			"the styled/styled-segment builtins and compounding syntax through the evaluator for %s x %d transformers; styledown Render of every markup of <=2 lines of <=%d styled characters, and Derender/Render round trip of U_3 under 3 style-definition sets. "+
+			"TextBuilder histories: a prefix of k in 0..13 alternating-style writes followed by every sequence of <=%d operations over {write red, write bold, write in the pending style, write a 2-segment text, Text(), Reset}, all snapshots re-checked after every operation against their value when taken and a reference model. "+
 			"class = operation + shape of arguments and result (segment counts, merges, empty parts, cut position, styling, oracle branch)",
 			c33SegTexts, len(t1), len(t2), len(t3), len(c33Stylings),
-			vk.Pick(c, "U_2^2, U_3xU_1, U_1xU_3, U_1^3", "U_3^2, U_2xU_1xU_2, U_1^4"), partK, vk.Pick(c, "U_2", "U_3"), len(c33Stylings)+2, vk.Pick(c, 2, 3)))
+			vk.Pick(c, "U_2^2, U_3xU_1, U_1xU_3, U_1^3", "U_3^2, U_2xU_1xU_2, U_1^4"), partK, vk.Pick(c, "U_2", "U_3"), len(c33Stylings)+2, vk.Pick(c, 2, 3), vk.Pick(c, 4, 6)))
 		c.Assume("input texts are in normal form (the documented precondition: only functions of package ui manipulate them)",
 			"wcwidth.OfRune is trusted for character widths (covered by C34)",
 			"Partition indices are byte indices, non-decreasing and within [0,len]; other index tuples are not enumerated",
@@ -1220,6 +1423,7 @@ func TestVerifC33(t *testing.T) {
 		c33OpBuiltin(c, k, big)
 		c33OpStyledownRender(c, k, vk.Pick(c, 2, 3))
 		c33OpStyledownTexts(c, k, t3)
+		c33OpBuilder(c, k, 13, vk.Pick(c, 4, 6))
 
 		c.Set("universe_sizes", []int{len(t1), len(t2), len(t3)})
 		c.Sample(c33Desc(t3[len(t3)/2].build()))
